@@ -14,6 +14,7 @@ Conformance of the substrate with the Go libraries is differential-tested by `ha
 Core Lean only.
 -/
 import Irismod.Sdk.Dec18
+import Irismod.Sdk.Sha256
 namespace Irismod.GoSem
 open Irismod.Sdk
 
@@ -102,6 +103,17 @@ def Big_Mod (a b : Int) : Option Int := if b = 0 then none else some (a.emod b)
 def Big_Exp (a b : Int) : Int := if b ≤ 0 then 1 else a ^ b.toNat
 def Big_Sign (a : Int) : Int := if a < 0 then -1 else if a = 0 then 0 else 1
 def Big_Cmp (a b : Int) : Int := if a < b then -1 else if a = b then 0 else 1
+
+/-! ### byte slices ([]byte, HexBytes, AccAddress) as values -/
+/-- the value of `append(a, b...)` -/
+def Bytes_append (a b : ByteArray) : ByteArray := a ++ b
+/-- `[]byte(s)` -/
+def Bytes_ofString (s : String) : ByteArray := s.toUTF8
+/-- `sdk.Uint64ToBigEndian` -/
+def Uint64ToBigEndian (n : Nat) : ByteArray :=
+  (List.range 8).foldl (fun acc i => acc.push (UInt8.ofNat ((n >>> (8 * (7 - i))) % 256))) ByteArray.empty
+/-- `tmhash.Sum` = SHA-256 -/
+def tmhash_Sum (b : ByteArray) : ByteArray := Irismod.Sha256.sum b
 
 /-! ### sdk.Coin -/
 structure Coin where
